@@ -95,6 +95,15 @@ def run_shard(spec, rec):
             check(jp, rec, text, doc, [], {"what": "non-array", "document": jsonable(doc)})
             # one level down as well (a member/element that is not an array)
             check(jp, rec, "$[*][%s]" % sel, [doc], [], {"what": "non-array-child", "document": jsonable([doc])})
+            # and inside filters: as an existence test, as a comparand and as a function argument
+            for tmpl in ("$[?@[%s]]", "$[?$[0][%s]]", "$[?count(@[%s]) > 0]", "$[?@.k[%s]]"):
+                if ":" in sel and "count" not in tmpl and False:
+                    continue
+                check(jp, rec, tmpl % sel, [doc] if ".k" not in tmpl else [{"k": doc}], [], {"what": "non-array-in-filter", "document": jsonable([doc])})
+            if ":" not in sel:
+                for tmpl in ("$[?@[%s] == 'a']", "$[?length(@[%s]) == 1]", "$[?@[%s] != 0]"):
+                    want_idx = [0] if "!=" in tmpl else []   # nothing != 0 holds, so the child is selected
+                    check(jp, rec, tmpl % sel, [doc], want_idx, {"what": "non-array-in-filter", "document": jsonable([doc])})
     # random
     for _ in range(spec["random"]):
         n = R.choice([R.randint(0, 12), R.randint(0, spec["maxlen"])])
